@@ -3,12 +3,15 @@
   `absArr h a` is the list of values the array `a` denotes in the heap `h`; each native is shown
   to commute with it and to return what `Spec.ListArr` returns.  The SEQUENCE theorems
   (`ops_refine_list`, `ops_refine_lists`) range over push / pop / popfirst only; length, contains,
-  sort and index reads have one-step theorems; index WRITES (`a[i] = v`) and calls nested in
-  each other's arguments have no theorem in this file.  Heaps are assumed well-formed
+  sort and index reads have one-step theorems; index WRITES (`a[i] = v`) are in sections 6
+  to 9 at the end (`index_write_refines`, `index_assign_refines`, `ops_refine_list_w`,
+  `ops_refine_lists_w`: sequences of push / pop / popfirst / length / index write); calls nested
+  in each other's arguments have no theorem in this file.  Heaps are assumed well-formed
   (`Heap.WF`: cell ids stored in containers are allocated), which the natives preserve, and the
   receiver must be an allocated array (`a < h.arrs.size`).
 -/
 import Jqawk.Lemmas.Arr
+import Jqawk.Lemmas.IndexWrite
 
 namespace Jqawk.C15
 open Jqawk Spec
@@ -362,5 +365,649 @@ example : (⟨#[.num F64.one, .num F64.zero], #[#[0, 1]], #[]⟩ : Heap).WF ∧
     · simp [Heap.arr] at hc
   · intro o k c hc
     simp [Heap.obj] at hc
+
+/-! ### 6. index writes `a[i] = v` (added after the statement review: REVIEW.md, C15)
+
+The ideal operation is `IndexWrite.setIdx l i w` on `List Val` (`i` = the index truncated to an
+integer the way Go's `int(x)` does, `F64.toGoInt`; `w` = the copy of the value that is stored).
+The clauses of the property are first proved about `setIdx` (what the ideal list does for each
+class of index), then the model is shown to refine `setIdx`: at the level of the primitives the
+evaluator runs for `a[i] = e` (`index_write_refines`), at the level of `evalExpr` when `e` is a
+variable (`index_assign_var_refines`) or any expression whose evaluation only allocates cells
+(section 8: `index_assign_refines`, `index_assign_fresh_refines` for literals), and inside
+arbitrary sequences of operations on one array (`ops_refine_list_w`) or several (section 9:
+`ops_refine_lists_w`).
+
+Besides `Heap.WF` the index-write theorems assume `Unshared` (no cell is an element of two arrays or
+twice of one array) and `ElemsPlain` (no element is a stand-in for a missing member or a method
+value).  Both are kept by push / pop / popfirst / index write (shown here); that every store of the
+evaluator keeps them is NOT proved here. -/
+
+open IndexWrite
+
+/-- an index inside the list overwrites exactly that element: same length, element `i` is the new
+    value, every other position is unchanged -/
+theorem index_inside (l : List Val) (i : Int) (w : Val) (h0 : 0 ≤ i) (hlt : i.toNat < l.length) :
+    ∃ l', setIdx l i w = .ok l' ∧ l'.length = l.length ∧ l'[i.toNat]? = some w ∧
+      ∀ j, j ≠ i.toNat → l'[j]? = l[j]? := by
+  refine ⟨l.set i.toNat w, by simp [setIdx, h0, hlt], by simp, by simp [hlt], fun j hj => ?_⟩
+  simp [Ne.symm hj]
+
+/-- an index at or past the end (up to the padding limit `fillLimit` = 1024·1024) pads with nulls
+    and appends: the length becomes `i + 1`, the old elements are unchanged, the positions between
+    the old end and `i` hold null, position `i` holds the new value -/
+theorem index_past_end (l : List Val) (i : Int) (w : Val) (h0 : 0 ≤ i) (hge : l.length ≤ i.toNat)
+    (hlim : i.toNat ≤ fillLimit) :
+    ∃ l', setIdx l i w = .ok l' ∧ l'.length = i.toNat + 1 ∧
+      (∀ j, j < l.length → l'[j]? = l[j]?) ∧
+      (∀ j, l.length ≤ j → j < i.toNat → l'[j]? = some (.nil none)) ∧
+      l'[i.toNat]? = some w := by
+  have h1 : ¬ i.toNat < l.length := Nat.not_lt.mpr hge
+  have h2 : ¬ fillLimit < i.toNat := Nat.not_lt.mpr hlim
+  refine ⟨l ++ List.replicate (i.toNat - l.length) (.nil none) ++ [w], by simp [setIdx, h0, h1, h2],
+    by simp; omega, fun j hj => ?_, fun j hj1 hj2 => ?_, ?_⟩
+  · rw [List.append_assoc, List.getElem?_append_left hj]
+  · rw [List.append_assoc, List.getElem?_append_right hj1,
+      List.getElem?_append_left (by simp; omega), List.getElem?_replicate]
+    simp; omega
+  · rw [List.getElem?_append_right (by simp; omega)]
+    have : i.toNat - (l ++ List.replicate (i.toNat - l.length) (Val.nil none)).length = 0 := by
+      simp; omega
+    rw [this]; rfl
+
+/-- a padding beyond the limit is refused (src/value.go SetMember: "index too large to auto-fill
+    array"); there is no new list -/
+theorem index_too_large (l : List Val) (i : Int) (w : Val) (h0 : 0 ≤ i) (hge : l.length ≤ i.toNat)
+    (hlim : fillLimit < i.toNat) :
+    setIdx l i w = .error "index too large to auto-fill array" := by
+  have h1 : ¬ i.toNat < l.length := Nat.not_lt.mpr hge
+  simp [setIdx, h0, h1, hlim]
+
+/-- a negative index `-k` with `k ≤ length` counts from the end: it overwrites exactly element
+    `length - k` (never pads), everything else and the length unchanged -/
+theorem index_negative (l : List Val) (i : Int) (w : Val) (hneg : i < 0) (hk : (-i).toNat ≤ l.length) :
+    ∃ l', setIdx l i w = .ok l' ∧ l'.length = l.length ∧ l'[l.length - (-i).toNat]? = some w ∧
+      ∀ j, j ≠ l.length - (-i).toNat → l'[j]? = l[j]? := by
+  have h0 : ¬ 0 ≤ i := by omega
+  have hlt : l.length - (-i).toNat < l.length := by omega
+  refine ⟨l.set (l.length - (-i).toNat) w, by simp [setIdx, h0, hk], by simp, by simp [hlt],
+    fun j hj => ?_⟩
+  simp [Ne.symm hj]
+
+/-- a negative index before the start (`-k` with `k > length`) is an error, as for reads
+    (src/value.go GetMember, which SetMember calls first: "index out of range") -/
+theorem index_before_start (l : List Val) (i : Int) (w : Val) (hneg : i < 0) (hk : l.length < (-i).toNat) :
+    setIdx l i w = .error "index out of range" := by
+  have h0 : ¬ 0 ≤ i := by omega
+  have h1 : ¬ (-i).toNat ≤ l.length := by omega
+  simp [setIdx, h0, h1]
+
+/-- whenever the ideal write succeeds, the ideal read `ListArr.get` at the same index returns the
+    written value -/
+theorem get_after_setIdx (l l' : List Val) (i : Int) (w : Val) (h : setIdx l i w = .ok l') :
+    ListArr.get l' i = some (some w) := by
+  unfold setIdx at h
+  unfold ListArr.get
+  by_cases h0 : 0 ≤ i
+  · simp only [h0, ↓reduceIte] at h ⊢
+    by_cases hlt : i.toNat < l.length
+    · simp only [hlt, ↓reduceIte, Except.ok.injEq] at h
+      subst h; simp [hlt]
+    · simp only [hlt, ↓reduceIte] at h
+      split at h
+      · cases h
+      · simp only [Except.ok.injEq] at h
+        subst h
+        rw [List.getElem?_append_right (by simp; omega)]
+        have : i.toNat - (l ++ List.replicate (i.toNat - l.length) (Val.nil none)).length = 0 := by
+          simp; omega
+        rw [this]; rfl
+  · simp only [h0, ↓reduceIte] at h ⊢
+    split at h
+    · rename_i hk
+      simp only [Except.ok.injEq] at h
+      subst h
+      have hlt : l.length - (-i).toNat < l.length := by omega
+      simp [hk, hlt]
+    · cases h
+
+/-- fractional indices are truncated toward zero before anything else (Go `int(x)`), and NaN is
+    an index before the start -/
+example : (F64.parse b!"1.5").map F64.toGoInt = some 1
+    ∧ (F64.parse b!"0.9").map F64.toGoInt = some 0
+    ∧ (F64.parse b!"1.5").map (fun x => (F64.neg x).toGoInt) = some (-1)
+    ∧ (F64.parse b!"0.9").map (fun x => (F64.neg x).toGoInt) = some 0 := by decide +kernel
+
+example : setIdx [.bool true, .bool false] 1 (.nil none) = .ok [.bool true, .nil none]
+    ∧ setIdx [.bool true, .bool false] (-2) (.nil none) = .ok [.nil none, .bool false]
+    ∧ setIdx [.bool true] 3 (.bool false) = .ok [.bool true, .nil none, .nil none, .bool false]
+    ∧ setIdx [.bool true] (-2) (.bool false) = .error "index out of range" := by
+  refine ⟨?_, ?_, ?_, ?_⟩ <;> rfl
+
+/-- **the index write refines the ideal list**, at the level of the primitives the evaluator runs
+    for `a[i] = e`: `writeAt pos ac ic rc` = `memberStep pos ac ic` then `evalAssignment pos · rc`,
+    where the cell `ac` holds the array `a`, `ic` holds the number `x` and `rc` the value whose copy
+    is `w`.  If the ideal `setIdx` on the list `a` denotes gives a list, the write succeeds, the
+    cell it returns holds `w`, `a` denotes that list and no other array changes (`ArrStep`); if the
+    ideal operation is an error, the write raises the runtime error with that message and no
+    array changes.  All index classes are covered by `x.toGoInt` being arbitrary (inside, past the
+    end, negative in range, before the start, fractional, NaN/±Inf = -2^63). -/
+theorem index_write_refines (pos : Nat) (ac ic rc : CellId) (s : St) (a : ArrId) (x : F64) (w : Val)
+    (wf : s.heap.WF) (un : Unshared s.heap) (pl : ElemsPlain s.heap) (ha : a < s.heap.arrs.size)
+    (hac : s.heap.get ac = .arr a) (hic : s.heap.get ic = .num x) (hrc : rc < s.heap.cells.size)
+    (hw : copyVal (s.heap.get rc) = .ok w) :
+    match setIdx (absArr s.heap a) x.toGoInt w with
+    | .ok l' => ∃ c s', writeAt pos ac ic rc s = .ok c s' ∧ s'.heap.get c = w ∧ ArrStep a s s' l' ∧
+        Unshared s'.heap ∧ ElemsPlain s'.heap
+    | .error m => ∃ s', writeAt pos ac ic rc s = .err (.runtime pos m) s' ∧
+        ∀ b, absArr s'.heap b = absArr s.heap b := by
+  have h := writeAt_refines pos ac ic rc s a x w wf un pl ha hac hic hrc hw
+  cases hs : setIdx (absArr s.heap a) x.toGoInt w with
+  | ok l' =>
+    rw [hs] at h
+    obtain ⟨c, h', e, g, st⟩ := h
+    exact ⟨c, _, e, g, ⟨st.this, st.others, st.wf, st.arrs, st.objs, rfl⟩, st.unshared, st.plain⟩
+  | error m =>
+    rw [hs] at h
+    obtain ⟨h', e, g⟩ := h
+    exact ⟨_, e, g⟩
+
+/-- the same at the level of the evaluator, for `ea[ei] = v` where `v` is a variable (or `$`):
+    `ea` evaluates to a cell holding the array `a` (e.g. `ea` is the variable that holds it), then
+    `ei` to a cell holding the number `x`; in the state `s2` reached then, the assignment expression
+    behaves like `setIdx` on the list `a` denotes.  (For a right-hand side that is not a variable
+    the evaluator runs it BETWEEN the member step and the store — `a[5] = a.pop()` — which this
+    theorem does not cover; `index_write_refines` is the step the evaluator performs around it.) -/
+theorem index_assign_var_refines (prog : Program) (n : Nat) (ea ei : Expr) (lsq eq tv : Token)
+    (s s1 s2 : St) (ac ic rc : CellId) (a : ArrId) (x : F64) (w : Val)
+    (hl : lsq.tag = .lsquare) (he : eq.tag = .equal)
+    (h1 : evalExpr prog n ea s = .ok ac s1) (h2 : evalExpr prog n ei s1 = .ok ic s2)
+    (h3 : ∀ h', getIdentifier prog tv { s2 with heap := h' } = .ok rc { s2 with heap := h' })
+    (wf : s2.heap.WF) (un : Unshared s2.heap) (pl : ElemsPlain s2.heap) (ha : a < s2.heap.arrs.size)
+    (hac : s2.heap.get ac = .arr a) (hic : s2.heap.get ic = .num x) (hrc : rc < s2.heap.cells.size)
+    (hw : copyVal (s2.heap.get rc) = .ok w) :
+    match setIdx (absArr s2.heap a) x.toGoInt w with
+    | .ok l' => ∃ c s', evalExpr prog (n + 4) (.binary (.binary ea ei lsq) (.ident tv) eq) s = .ok c s' ∧
+        s'.heap.get c = w ∧ ArrStep a s2 s' l' ∧ Unshared s'.heap ∧ ElemsPlain s'.heap
+    | .error m => ∃ s', evalExpr prog (n + 4) (.binary (.binary ea ei lsq) (.ident tv) eq) s
+          = .err (.runtime ea.token.pos m) s' ∧
+        ∀ b, absArr s'.heap b = absArr s2.heap b := by
+  rw [evalExpr_index_assign prog n ea ei lsq eq tv s s1 s2 ac ic rc hl he h1 h2 h3]
+  exact index_write_refines ea.token.pos ac ic rc s2 a x w wf un pl ha hac hic hrc hw
+
+
+/-! ### 7. every sequence of push / pop / popfirst / length / index write -/
+
+/-- the operations of the extended sequence theorem: those of `ListArr.Op`, `length`, and the
+    index write `a[x] = v` -/
+inductive OpW
+  | op (o : ListArr.Op)
+  | length
+  | set (x : F64) (v : Val)
+
+/-- what may be pushed / stored for the sequence theorem: a pushed value is as array elements are
+    (`Plain`; the evaluator only ever pushes copies), a stored value can be copied (is not a
+    function) -/
+def OpW.valid : OpW → Prop
+  | .op (.push v) => Plain v
+  | .op _ => True
+  | .length => True
+  | .set _ v => ∃ w, copyVal v = .ok w
+
+/-- one operation on the ideal list: result and new list, or the error message.  An index write
+    stores (and returns) the copy of the value, `ListArr.sortCopy v` = `copyVal v` -/
+def stepW (l : List Val) : OpW → Except String (Option Val × List Val)
+  | .op o => .ok (ListArr.step l o)
+  | .length => .ok (some (.num (F64.ofNat (ListArr.length l))), l)
+  | .set x v =>
+    match setIdx l x.toGoInt (ListArr.sortCopy v) with
+    | .ok l' => .ok (some (ListArr.sortCopy v), l')
+    | .error m => .error m
+
+/-- a sequence on the ideal list, stopping at the first error -/
+def runW : List Val → List OpW → Except String (List (Option Val) × List Val)
+  | l, [] => .ok ([], l)
+  | l, op :: ops =>
+    match stepW l op with
+    | .error m => .error m
+    | .ok (r, l1) =>
+      match runW l1 ops with
+      | .error m => .error m
+      | .ok (rs, l2) => .ok (r :: rs, l2)
+
+/-- one operation of the model through the array id `a`.  The index write is `writeAt` (the member
+    step and the assignment the evaluator runs for `a[i] = e`) on three fresh cells holding the
+    array reference, the index and the value — what evaluating the operands yields; its result is
+    the value of the cell the assignment returns -/
+def callOpW (a : ArrId) : OpW → EM NativeRes
+  | .op o => callOp a o
+  | .length => callNative .arrLength [] (some (.arr a))
+  | .set x v => do
+    let ac ← newCell (.arr a)
+    let ic ← newCell (.num x)
+    let rc ← newCell v
+    let c ← writeAt 0 ac ic rc
+    return .ok (some (← readCell c))
+
+def runOpsW (a : ArrId) : List OpW → EM (List NativeRes)
+  | [] => pure []
+  | op :: ops => do
+    let r ← callOpW a op
+    let rs ← runOpsW a ops
+    return r :: rs
+
+/-- push / pop / popfirst keep `Unshared` and `ElemsPlain` -/
+theorem op_keeps (a : ArrId) (o : ListArr.Op) (s s' : St) (r : NativeRes) (wf : s.heap.WF)
+    (un : Unshared s.heap) (pl : ElemsPlain s.heap) (ha : a < s.heap.arrs.size)
+    (hv : (OpW.op o).valid) (h : callOp a o s = .ok r s') :
+    Unshared s'.heap ∧ ElemsPlain s'.heap := by
+  cases o with
+  | push v =>
+    simp only [callOp, callNative_arrPush] at h
+    cases h
+    exact ⟨unshared_pushHeap s.heap wf un a ha v, elemsPlain_pushHeap s.heap wf pl a ha v hv⟩
+  | pop =>
+    simp only [callOp, callNative_arrPop] at h
+    split at h
+    · cases h; exact ⟨un, pl⟩
+    · cases h; exact ⟨unshared_pop s.heap un a ha, elemsPlain_pop s.heap pl a ha⟩
+  | popfirst =>
+    simp only [callOp, callNative_arrPopfirst] at h
+    split at h
+    · cases h; exact ⟨un, pl⟩
+    · cases h; exact ⟨unshared_popfirst s.heap un a ha, elemsPlain_popfirst s.heap pl a ha⟩
+
+/-- one operation of the extended set refines the ideal step, and keeps the invariants -/
+theorem opW_refines (a : ArrId) (op : OpW) (s : St) (wf : s.heap.WF) (un : Unshared s.heap)
+    (pl : ElemsPlain s.heap) (ha : a < s.heap.arrs.size) (hv : op.valid) :
+    match stepW (absArr s.heap a) op with
+    | .ok (r, l') => ∃ s', callOpW a op s = .ok (resOf a r) s' ∧ ArrStep a s s' l' ∧
+        Unshared s'.heap ∧ ElemsPlain s'.heap
+    | .error m => ∃ s', callOpW a op s = .err (.runtime 0 m) s' := by
+  cases op with
+  | op o =>
+    obtain ⟨s', e, st⟩ := op_refines a o s wf ha
+    exact ⟨s', e, st, op_keeps a o s s' _ wf un pl ha hv e⟩
+  | length =>
+    exact ⟨s, length_refines a [] s,
+      ⟨rfl, fun _ _ => rfl, wf, rfl, rfl, rfl⟩, un, pl⟩
+  | set x v =>
+    obtain ⟨w, hw⟩ := hv
+    have hsc : ListArr.sortCopy v = w := by simp [ListArr.sortCopy, hw]
+    -- the three operand cells
+    let h1 := (s.heap.alloc (.arr a)).2
+    let h2 := (h1.alloc (.num x)).2
+    let h3 := (h2.alloc v).2
+    have wf1 : h1.WF := wf_alloc _ wf _
+    have wf2 : h2.WF := wf_alloc _ wf1 _
+    have wf3 : h3.WF := wf_alloc _ wf2 _
+    have pl3 : ElemsPlain h3 :=
+      elemsPlain_alloc _ wf2 (elemsPlain_alloc _ wf1 (elemsPlain_alloc _ wf pl _) _) _
+    have habs : ∀ b, absArr h3 b = absArr s.heap b := fun b => by
+      rw [absArr_alloc h2 wf2, absArr_alloc h1 wf1, absArr_alloc s.heap wf]
+    have hsz1 : h1.cells.size = s.heap.cells.size + 1 := by simp [h1, Heap.alloc]
+    have hsz2 : h2.cells.size = s.heap.cells.size + 2 := by simp [h2, Heap.alloc, hsz1]
+    have hsz3 : h3.cells.size = s.heap.cells.size + 3 := by simp [h3, Heap.alloc, hsz2]
+    have g3 : h3.get h2.cells.size = v := Heap.get_push_new h2 v
+    have g2 : h3.get h1.cells.size = .num x := by
+      rw [show h3.get h1.cells.size = h2.get h1.cells.size from
+        Heap.get_push_old h2 v _ (by rw [hsz2, hsz1]; nomega)]
+      exact Heap.get_push_new h1 _
+    have g1 : h3.get s.heap.cells.size = .arr a := by
+      rw [show h3.get s.heap.cells.size = h2.get s.heap.cells.size from
+        Heap.get_push_old h2 v _ (by rw [hsz2]; nomega)]
+      rw [show h2.get s.heap.cells.size = h1.get s.heap.cells.size from
+        Heap.get_push_old h1 _ _ (by rw [hsz1]; nomega)]
+      exact Heap.get_push_new s.heap _
+    have hrun : callOpW a (.set x v) s =
+        (match writeAt 0 s.heap.cells.size h1.cells.size h2.cells.size { s with heap := h3 } with
+         | .ok c s' => .ok (.ok (some (s'.heap.get c))) s'
+         | .err e s' => .err e s'
+         | .oof => .oof) := by
+      simp only [callOpW, bind, EM.bind, newCell_eq]
+      cases writeAt 0 s.heap.cells.size h1.cells.size h2.cells.size { s with heap := h3 } <;> rfl
+    have hr := index_write_refines 0 s.heap.cells.size h1.cells.size h2.cells.size
+      { s with heap := h3 } a x w wf3 (un : Unshared h3) pl3 ha g1 g2
+      (by show @LT.lt Nat _ h2.cells.size h3.cells.size; rw [hsz3, hsz2]; omega)
+      (by show copyVal (h3.get h2.cells.size) = _; rw [g3]; exact hw)
+    simp only [stepW, hsc]
+    rw [show absArr ({ s with heap := h3 } : St).heap a = absArr s.heap a from habs a] at hr
+    cases hs : setIdx (absArr s.heap a) x.toGoInt w with
+    | ok l' =>
+      rw [hs] at hr
+      obtain ⟨c, s', e, g, st, un', pl'⟩ := hr
+      refine ⟨s', ?_, ?_, un', pl'⟩
+      · rw [hrun, e]; simp only [g, resOf]
+      · exact {
+          this := st.this
+          others := fun b hb => by rw [st.others b hb]; exact habs b
+          wf := st.wf
+          arrs := st.arrs
+          objs := st.objs
+          rest := by have := st.rest; rw [this] }
+    | error m =>
+      rw [hs] at hr
+      obtain ⟨s', e, -⟩ := hr
+      exact ⟨s', by rw [hrun, e]⟩
+
+/-- **for any sequence of push / pop / popfirst / length / index write through the same array id,
+    every result and the final contents are those of the ideal list, and no other array changes**;
+    if the ideal sequence stops with an error (an index before the start, a padding beyond the
+    limit), the model's run stops with the runtime error carrying the same message -/
+theorem ops_refine_list_w (a : ArrId) (ops : List OpW) (s : St) (wf : s.heap.WF) (un : Unshared s.heap)
+    (pl : ElemsPlain s.heap) (ha : a < s.heap.arrs.size) (hv : ∀ op ∈ ops, op.valid) :
+    match runW (absArr s.heap a) ops with
+    | .ok (rs, l') => ∃ s', runOpsW a ops s = .ok (rs.map (resOf a)) s' ∧ ArrStep a s s' l'
+    | .error m => ∃ s', runOpsW a ops s = .err (.runtime 0 m) s' := by
+  induction ops generalizing s with
+  | nil =>
+    exact ⟨s, rfl, { this := rfl, others := fun _ _ => rfl, wf := wf, arrs := rfl, objs := rfl, rest := rfl }⟩
+  | cons op ops ih =>
+    have h1 := opW_refines a op s wf un pl ha (hv op List.mem_cons_self)
+    simp only [runW]
+    cases hs : stepW (absArr s.heap a) op with
+    | error m =>
+      rw [hs] at h1
+      obtain ⟨s', e⟩ := h1
+      exact ⟨s', by simp only [runOpsW, bind, EM.bind, e]⟩
+    | ok rl =>
+      obtain ⟨r, l1⟩ := rl
+      rw [hs] at h1
+      obtain ⟨s1, e1, st1, un1, pl1⟩ := h1
+      have h2 := ih s1 st1.wf un1 pl1 (by rw [st1.arrs]; exact ha)
+        (fun o ho => hv o (List.mem_cons_of_mem _ ho))
+      rw [st1.this] at h2
+      simp only
+      cases hr : runW l1 ops with
+      | error m =>
+        rw [hr] at h2
+        obtain ⟨s', e⟩ := h2
+        exact ⟨s', by simp only [runOpsW, bind, EM.bind, e1, e]⟩
+      | ok rsl =>
+        obtain ⟨rs, l2⟩ := rsl
+        rw [hr] at h2
+        obtain ⟨s2, e2, st2⟩ := h2
+        refine ⟨s2, by simp only [runOpsW, bind, EM.bind, e1, e2, pure, EM.pure, List.map_cons], ?_⟩
+        exact {
+          this := st2.this
+          others := fun b hb => by rw [st2.others b hb, st1.others b hb]
+          wf := st2.wf
+          arrs := by rw [st2.arrs, st1.arrs]
+          objs := by rw [st2.objs, st1.objs]
+          rest := by
+            have e1 := st1.rest; have e2 := st2.rest
+            rw [e2]; rw [e1] }
+
+
+/-! #### non-vacuity: a concrete state meeting the hypotheses of the index-write theorems -/
+
+/-- cells 0, 1, 2 hold the array reference, the index `1` and the value `true`; the array 0 is
+    `[true, false]` (cells 3, 4); the variables `a`, `i`, `v` name cells 0, 1, 2 -/
+def exW : St :=
+  { heap := ⟨#[.arr 0, .num F64.one, .bool true, .bool true, .bool false], #[#[3, 4]], #[]⟩,
+    frames := [⟨b!"<root>", [(b!"a", 0), (b!"i", 1), (b!"v", 2)]⟩], out := [], root := none,
+    ruleRoot := none, returnVal := none, faults := 0 }
+
+theorem exW_arr (a : ArrId) : exW.heap.arr (a + 1) = #[] := by
+  simp [exW, Heap.arr]
+
+theorem exW_wf : exW.heap.WF := by
+  refine ⟨?_, ?_⟩
+  · intro a c hc
+    rcases a with _ | a
+    · have : c = 3 ∨ c = 4 := by simpa [exW, Heap.arr] using hc
+      rcases this with rfl | rfl <;> decide
+    · rw [exW_arr] at hc; simp at hc
+  · intro o k c hc
+    simp [exW, Heap.obj] at hc
+
+theorem exW_unshared : Unshared exW.heap := by
+  intro a b i j hi hj e
+  rcases a with _ | a
+  · rcases b with _ | b
+    · have hi' : i < 2 := hi
+      have hj' : j < 2 := hj
+      refine ⟨rfl, ?_⟩
+      rcases i with _ | _ | i <;> rcases j with _ | _ | j <;> first | rfl | omega | (revert e; decide)
+    · rw [exW_arr] at hj; simp at hj
+  · rw [exW_arr] at hi; simp at hi
+
+theorem exW_plain : ElemsPlain exW.heap := by
+  intro a c hc
+  rcases a with _ | a
+  · have : c = 3 ∨ c = 4 := by simpa [exW, Heap.arr] using hc
+    rcases this with rfl | rfl <;> exact ⟨rfl, fun _ _ _ e => by cases e⟩
+  · rw [exW_arr] at hc; simp at hc
+
+/-- `a[i] = v` -/
+def exWAssign : Expr :=
+  .binary (.binary (.ident ⟨.ident, 0, b!"a"⟩) (.ident ⟨.ident, 2, b!"i"⟩) ⟨.lsquare, 1, b!"["⟩)
+    (.ident ⟨.ident, 7, b!"v"⟩) ⟨.equal, 5, b!"="⟩
+
+/-- the hypotheses of `index_write_refines` and of `index_assign_var_refines` hold in `exW` for
+    `a[i] = v`, and the conclusion gives: the assignment succeeds and `a` denotes `[true, true]` -/
+example : ∃ c s', evalExpr Program.empty 5 exWAssign exW = .ok c s' ∧
+    absArr s'.heap 0 = [.bool true, .bool true] ∧ s'.heap.get c = .bool true := by
+  have h := index_assign_var_refines Program.empty 1 (.ident ⟨.ident, 0, b!"a"⟩) (.ident ⟨.ident, 2, b!"i"⟩)
+    ⟨.lsquare, 1, b!"["⟩ ⟨.equal, 5, b!"="⟩ ⟨.ident, 7, b!"v"⟩ exW exW exW 0 1 2 0 F64.one (.bool true)
+    rfl rfl (by with_unfolding_all rfl) (by with_unfolding_all rfl)
+    (fun _ => by with_unfolding_all rfl) exW_wf exW_unshared exW_plain (by decide) rfl rfl (by decide) rfl
+  have hs : setIdx (absArr exW.heap 0) F64.one.toGoInt (.bool true) = .ok [.bool true, .bool true] := by
+    rfl
+  rw [hs] at h
+  obtain ⟨c, s', e, g, st, -⟩ := h
+  exact ⟨c, s', e, st.this, g⟩
+
+/-- a sequence mixing all five operations on `exW`'s array `[true, false]`:
+    `a[3] = 1; a.pop(); a[-1] = 0; a.popfirst(); a.length; a.push(1)` -/
+example : runW [.bool true, .bool false]
+      [.set (F64.ofNat 3) (.num F64.one), .op .pop, .set (F64.neg F64.one) (.num F64.zero),
+       .op .popfirst, .length, .op (.push (.num F64.one))]
+    = .ok ([some (.num F64.one), some (.num F64.one), some (.num F64.zero), some (.bool true),
+            some (.num (F64.ofNat 2)), none],
+           [.bool false, .num F64.zero, .num F64.one]) := by
+  rfl
+
+
+/-! ### 8. `ea[ei] = er` with a right-hand side that is not a variable -/
+
+/-- **the assignment expression `ea[ei] = er` refines the ideal list, for every right-hand side whose
+    evaluation only allocates cells** (`RhsYields`: run in the state after the member step it
+    yields a cell whose value copies to `w`, keeping every existing cell, array and object —
+    literals, variables, arithmetic on them, reads of existing members; NOT method calls that
+    change an array, `a[5] = a.pop()`, nor array / object literals, which allocate containers).
+    `ea` evaluates to a cell holding the array `a`, then `ei` to a cell holding the number `x`;
+    `s2` is the state reached then. -/
+theorem index_assign_refines (prog : Program) (n : Nat) (ea ei er : Expr) (lsq eq : Token)
+    (s s1 s2 : St) (ac ic : CellId) (a : ArrId) (x : F64) (w : Val)
+    (hl : lsq.tag = .lsquare) (he : eq.tag = .equal)
+    (h1 : evalExpr prog n ea s = .ok ac s1) (h2 : evalExpr prog n ei s1 = .ok ic s2)
+    (wf : s2.heap.WF) (un : Unshared s2.heap) (pl : ElemsPlain s2.heap) (ha : a < s2.heap.arrs.size)
+    (hac : s2.heap.get ac = .arr a) (hic : s2.heap.get ic = .num x)
+    (hr : ∀ m sm, memberStep ea.token.pos ac ic s2 = .ok m sm →
+      RhsYields (evalExpr prog (n + 2) er) w sm) :
+    match setIdx (absArr s2.heap a) x.toGoInt w with
+    | .ok l' => ∃ c s', evalExpr prog (n + 4) (.binary (.binary ea ei lsq) er eq) s = .ok c s' ∧
+        s'.heap.get c = w ∧ ArrStep a s2 s' l' ∧ Unshared s'.heap ∧ ElemsPlain s'.heap
+    | .error m => ∃ s', evalExpr prog (n + 4) (.binary (.binary ea ei lsq) er eq) s
+          = .err (.runtime ea.token.pos m) s' ∧
+        ∀ b, absArr s'.heap b = absArr s2.heap b := by
+  rw [evalExpr_index_assign_any prog n ea ei er lsq eq s s1 s2 ac ic hl he h1 h2]
+  have h := writeAtVia_refines ea.token.pos ac ic (evalExpr prog (n + 2) er) s2 a x w wf un pl ha hac hic hr
+  cases hs : setIdx (absArr s2.heap a) x.toGoInt w with
+  | ok l' =>
+    rw [hs] at h
+    obtain ⟨c, h', e, g, st⟩ := h
+    exact ⟨c, _, e, g, ⟨st.this, st.others, st.wf, st.arrs, st.objs, rfl⟩, st.unshared, st.plain⟩
+  | error m =>
+    rw [hs] at h
+    obtain ⟨h', e, g⟩ := h
+    exact ⟨_, e, g⟩
+
+/-- instance: the right-hand side is a literal (or anything else that evaluates, in every state,
+    to a fresh cell holding the value `v`), `w` the copy of `v` -/
+theorem index_assign_fresh_refines (prog : Program) (n : Nat) (ea ei er : Expr) (lsq eq : Token)
+    (s s1 s2 : St) (ac ic : CellId) (a : ArrId) (x : F64) (v w : Val)
+    (hl : lsq.tag = .lsquare) (he : eq.tag = .equal)
+    (h1 : evalExpr prog n ea s = .ok ac s1) (h2 : evalExpr prog n ei s1 = .ok ic s2)
+    (wf : s2.heap.WF) (un : Unshared s2.heap) (pl : ElemsPlain s2.heap) (ha : a < s2.heap.arrs.size)
+    (hac : s2.heap.get ac = .arr a) (hic : s2.heap.get ic = .num x)
+    (hv : ∀ s', evalExpr prog (n + 2) er s' = newCell v s') (hw : copyVal v = .ok w) :
+    match setIdx (absArr s2.heap a) x.toGoInt w with
+    | .ok l' => ∃ c s', evalExpr prog (n + 4) (.binary (.binary ea ei lsq) er eq) s = .ok c s' ∧
+        s'.heap.get c = w ∧ ArrStep a s2 s' l' ∧ Unshared s'.heap ∧ ElemsPlain s'.heap
+    | .error m => ∃ s', evalExpr prog (n + 4) (.binary (.binary ea ei lsq) er eq) s
+          = .err (.runtime ea.token.pos m) s' ∧
+        ∀ b, absArr s'.heap b = absArr s2.heap b := by
+  apply index_assign_refines prog n ea ei er lsq eq s s1 s2 ac ic a x w hl he h1 h2 wf un pl ha hac hic
+  intro m sm _
+  refine ⟨sm.heap.cells.size, (sm.heap.alloc v).2, ?_, Ext.alloc sm.heap v, ?_, ?_⟩
+  · rw [hv, newCell_eq]
+  · show @LT.lt Nat _ sm.heap.cells.size (sm.heap.cells.push v).size
+    simp
+  · rw [show (sm.heap.alloc v).2.get sm.heap.cells.size = v from Heap.get_push_new sm.heap v]
+    exact hw
+
+/-- the number the literal `3` denotes -/
+def three : F64 := (F64.parse b!"3").getD F64.zero
+
+/-- `a[3] = null` on `exW` (`a` = `[true, false]`, the index and the value are literals): the
+    hypotheses of `index_assign_fresh_refines` hold and it gives `[true, false, null, null]` -/
+example : ∃ c s', evalExpr Program.empty 5
+      (.binary (.binary (.ident ⟨.ident, 0, b!"a"⟩) (.lit ⟨.num, 2, b!"3"⟩) ⟨.lsquare, 1, b!"["⟩)
+        (.lit ⟨.null, 7, b!"null"⟩) ⟨.equal, 5, b!"="⟩) exW = .ok c s' ∧
+    absArr s'.heap 0 = [.bool true, .bool false, .nil none, .nil none] := by
+  have hp : F64.parse b!"3" = some three := by decide +kernel
+  have h3 : three.toGoInt = 3 := by decide +kernel
+  have ext : Ext exW.heap (exW.heap.alloc (.num three)).2 := Ext.alloc _ _
+  have h2 : evalExpr Program.empty 1 (.lit ⟨.num, 2, b!"3"⟩) exW
+      = .ok 5 { exW with heap := (exW.heap.alloc (.num three)).2 } := by
+    unfold evalExpr
+    simp only [hp]
+    rfl
+  have h := index_assign_fresh_refines Program.empty 1 (.ident ⟨.ident, 0, b!"a"⟩) (.lit ⟨.num, 2, b!"3"⟩)
+    (.lit ⟨.null, 7, b!"null"⟩) ⟨.lsquare, 1, b!"["⟩ ⟨.equal, 5, b!"="⟩ exW exW
+    { exW with heap := (exW.heap.alloc (.num three)).2 } 0 5 0 three (.nil none) (.nil none)
+    rfl rfl (by with_unfolding_all rfl) h2
+    (ext.wf exW_wf) (ext.unshared exW_unshared) (ext.plain exW_wf exW_plain) (by decide)
+    (Heap.get_push_old exW.heap _ 0 (by decide)) (Heap.get_push_new exW.heap _)
+    (fun _ => by with_unfolding_all rfl) rfl
+  rw [h3, ext.absArr exW_wf 0] at h
+  have hs : setIdx (absArr exW.heap 0) 3 (.nil none) = .ok [.bool true, .bool false, .nil none, .nil none] := by
+    rfl
+  rw [hs] at h
+  obtain ⟨c, s', e, g, st, -⟩ := h
+  exact ⟨c, s', e, st.this⟩
+
+/-! ### 9. several arrays, interleaved, with index writes -/
+
+/-- interleaved operations on a family of ideal lists, stopping at the first error -/
+def runAllW : (ArrId → List Val) → List (ArrId × OpW) → Except String (List NativeRes × (ArrId → List Val))
+  | m, [] => .ok ([], m)
+  | m, aop :: ops =>
+    match stepW (m aop.1) aop.2 with
+    | .error e => .error e
+    | .ok (r, l') =>
+      match runAllW (fun b => if b = aop.1 then l' else m b) ops with
+      | .error e => .error e
+      | .ok (rs, m') => .ok (resOf aop.1 r :: rs, m')
+
+def runOpsOnW : List (ArrId × OpW) → EM (List NativeRes)
+  | [] => pure []
+  | aop :: ops => do
+    let r ← callOpW aop.1 aop.2
+    let rs ← runOpsOnW ops
+    return r :: rs
+
+/-- **operations — index writes included — interleaved on several arrays**: every result is the
+    ideal one and every array denotes what its ideal list holds after the operations addressed to
+    it; an error of the ideal run is the runtime error of the model's run -/
+theorem ops_refine_lists_w (ops : List (ArrId × OpW)) (s : St) (wf : s.heap.WF) (un : Unshared s.heap)
+    (pl : ElemsPlain s.heap) (hids : ∀ aop ∈ ops, aop.1 < s.heap.arrs.size)
+    (hv : ∀ aop ∈ ops, aop.2.valid) :
+    match runAllW (absArr s.heap) ops with
+    | .ok (rs, m') => ∃ s', runOpsOnW ops s = .ok rs s' ∧ (∀ b, absArr s'.heap b = m' b) ∧
+        s'.heap.WF ∧ s'.heap.arrs.size = s.heap.arrs.size ∧ s' = { s with heap := s'.heap }
+    | .error e => ∃ s', runOpsOnW ops s = .err (.runtime 0 e) s' := by
+  induction ops generalizing s with
+  | nil => exact ⟨s, rfl, fun _ => rfl, wf, rfl, rfl⟩
+  | cons aop ops ih =>
+    have h1 := opW_refines aop.1 aop.2 s wf un pl (hids aop List.mem_cons_self) (hv aop List.mem_cons_self)
+    simp only [runAllW]
+    cases hs : stepW (absArr s.heap aop.1) aop.2 with
+    | error e =>
+      rw [hs] at h1
+      obtain ⟨s', e'⟩ := h1
+      exact ⟨s', by simp only [runOpsOnW, bind, EM.bind, e']⟩
+    | ok rl =>
+      obtain ⟨r, l1⟩ := rl
+      rw [hs] at h1
+      obtain ⟨s1, e1, st1, un1, pl1⟩ := h1
+      have habs : absArr s1.heap = fun b => if b = aop.1 then l1 else absArr s.heap b := by
+        funext b
+        by_cases hb : b = aop.1
+        · subst hb; simp [st1.this]
+        · simp [hb, st1.others b hb]
+      have h2 := ih s1 st1.wf un1 pl1
+        (fun x hx => by rw [st1.arrs]; exact hids x (List.mem_cons_of_mem _ hx))
+        (fun x hx => hv x (List.mem_cons_of_mem _ hx))
+      rw [habs] at h2
+      simp only
+      cases hr : runAllW (fun b => if b = aop.1 then l1 else absArr s.heap b) ops with
+      | error e =>
+        rw [hr] at h2
+        obtain ⟨s', e'⟩ := h2
+        exact ⟨s', by simp only [runOpsOnW, bind, EM.bind, e1, e']⟩
+      | ok rsm =>
+        obtain ⟨rs, m'⟩ := rsm
+        rw [hr] at h2
+        obtain ⟨s2, e2, hall, wf2, hsz, hrest⟩ := h2
+        refine ⟨s2, by simp only [runOpsOnW, bind, EM.bind, e1, e2, pure, EM.pure], hall, wf2,
+          by rw [hsz, st1.arrs], ?_⟩
+        have e1' := st1.rest
+        rw [hrest]; rw [e1']
+
+
+/-- non-vacuity of `ops_refine_list_w` / `ops_refine_lists_w`: the sequence
+    `a[3] = 1; a.pop(); a[-1] = 0; a.popfirst(); a.length; a.push(1)` is valid, `exW` meets the
+    hypotheses, and the theorem gives the results and the final contents `[false, 0, 1]` -/
+def exOps : List OpW :=
+  [.set (F64.ofNat 3) (.num F64.one), .op .pop, .set (F64.neg F64.one) (.num F64.zero),
+   .op .popfirst, .length, .op (.push (.num F64.one))]
+
+theorem exOps_valid : ∀ op ∈ exOps, op.valid := by
+  intro op hop
+  simp only [exOps, List.mem_cons, List.not_mem_nil, or_false] at hop
+  rcases hop with rfl | rfl | rfl | rfl | rfl | rfl
+  · exact ⟨_, rfl⟩
+  · trivial
+  · exact ⟨_, rfl⟩
+  · trivial
+  · trivial
+  · exact ⟨rfl, fun _ _ _ e => by cases e⟩
+
+example : ∃ s', runOpsW 0 exOps exW =
+      .ok ([some (.num F64.one), some (.num F64.one), some (.num F64.zero), some (.bool true),
+            some (.num (F64.ofNat 2)), none].map (resOf 0)) s' ∧
+    absArr s'.heap 0 = [.bool false, .num F64.zero, .num F64.one] := by
+  have h := ops_refine_list_w 0 exOps exW exW_wf exW_unshared exW_plain (by decide) exOps_valid
+  have hr : runW (absArr exW.heap 0) exOps
+      = .ok ([some (.num F64.one), some (.num F64.one), some (.num F64.zero), some (.bool true),
+            some (.num (F64.ofNat 2)), none], [.bool false, .num F64.zero, .num F64.one]) := rfl
+  rw [hr] at h
+  obtain ⟨s', e, st⟩ := h
+  exact ⟨s', e, st.this⟩
+
+
+/-- why `Unshared` is assumed: in a heap (not reachable by the evaluator, as far as we know: every
+    store into an array goes through a fresh cell) where one cell is an element twice, `a[1] = false`
+    on `[true, true]` changes BOTH elements, where the ideal list gives `[true, false]` -/
+example : (match writeAt 0 0 1 2
+      { exW with heap := ⟨#[.arr 0, .num F64.one, .bool false, .bool true], #[#[3, 3]], #[]⟩ } with
+    | .ok _ s' => absArr s'.heap 0
+    | _ => []) = [.bool false, .bool false]
+    ∧ setIdx [.bool true, .bool true] F64.one.toGoInt (.bool false) = .ok [.bool true, .bool false] := by
+  constructor <;> with_unfolding_all rfl
+
 
 end Jqawk.C15
